@@ -46,6 +46,8 @@ func runC07(c *eng.Ctx) {
 	p := c.P
 	writtenMetricStaysActive(c)
 	pendingOutputClaimOrder(c)
+	walRegistryReplacedInOneHold(c)
+	writableMemDBOnlyReplacedByANewOne(c)
 	rewindToTheAckIsAccepted(c)
 	closeFlushesOldestFirst(c)
 
